@@ -368,7 +368,7 @@ column_type2typ = {
     "DateTime": "datetime",
     "Float": "float",
     "Integer": "int",
-    "JSON": "Optional[dict]",
+    "JSON": "dict",
     "LargeBinary": "BlobProperty",
     "String": "str",
     "Text": "str",
